@@ -55,7 +55,13 @@ def shards(tier, seed):
                         out.append(dict(func=func, dtype=dtype, method=method, n=n, part=part, nparts=nparts))
                 out.append(dict(func=func, dtype=dtype, method=method, n=b["n_stratum"], part=b["stratum"],
                                 nparts=b["strata"] * (2 if b["n_stratum"] == 6 else 1)))
-    out.sort(key=lambda s: -s["n"])
+    # many-blocks leg: 9 and 10 size-1 chunks (block ids beyond 8, cohorts spanning many blocks, 2-3 tree levels)
+    for func, dtype in (("argmax", "float64"), ("nanargmin", "float64"), ("nanlast", "int64"), ("nanfirst", "float64")):
+        for n in (9, 10) if tier == "quick" else (9, 10, 11):
+            nparts = {9: 4, 10: 8, 11: 16}[n]
+            for part in range(nparts):
+                out.append(dict(func=func, dtype=dtype, method="many", n=n, part=part, nparts=nparts, many=True))
+    out.sort(key=lambda s: -s["n"] if not s.get("many") else -100)
     return out
 
 
@@ -126,9 +132,33 @@ def spans(lab_tuple, chunks):
     return any(len(b) >= 2 for b in blocks.values())
 
 
+def many_rows(n, dtype):
+    rows = [[3] * n, list(range(n)), list(range(n, 0, -1)), [1, 3] * (n // 2) + [1] * (n % 2), [3, 1, 1] * (n // 3) + [3] * (n % 3)]
+    if dtype == "float64":
+        rows.append([float("nan"), 3.0] * (n // 2) + [3.0] * (n % 2))
+    return np.array(rows, dtype=dtype)
+
+
+def run_many(res, shard):
+    func, dtype, n = shard["func"], shard["dtype"], shard["n"]
+    V = many_rows(n, dtype)
+    lts = [lt for i, lt in enumerate(itertools.product((0.0, 1.0), repeat=n)) if i % shard["nparts"] == shard["part"]]
+    ch = (1,) * n
+    for lt in lts:
+        for method in ("cohorts", None):
+            check_point(res, func, dtype, lt, ch, method, None, 1, V)
+        check_point(res, func, dtype, lt, ch, "cohorts", 2, 1, V)
+        res.nontrivial += 3 * V.shape[0]
+        res.classes[f"many-blocks={n}"] += 1
+    res.sample(dict(leg="many-blocks", func=func, n=n, labels=list(lts[len(lts) // 2]), rows=V.tolist()[:2]))
+    return res
+
+
 def run_shard(shard):
     e1.reset_flox_caches()
     res = Result()
+    if shard.get("many"):
+        return run_many(res, shard)
     func, dtype, method, n = shard["func"], shard["dtype"], shard["method"], shard["n"]
     V = space.value_matrix(AF if dtype == "float64" else AI, n, dtype)
     pairs = [(lt, ch) for lt in itertools.product(LABELS, repeat=n) for ch in space.compositions(n)]
@@ -161,7 +191,7 @@ def replay(payload):
     res = Result()
     c = payload["case"]
     lt = tuple(unjson_float(c["labels"]))
-    V = space.value_matrix(AF if c["dtype"] == "float64" else AI, len(lt), c["dtype"])
+    V = space.value_matrix(AF if c["dtype"] == "float64" else AI, len(lt), c["dtype"]) if len(lt) <= 7 else many_rows(len(lt), c["dtype"])
     check_point(res, c["func"], c["dtype"], lt, tuple(c["chunks"]), c["method"], c["split_every"], c["batch_blocks"], V,
                 engine=c.get("engine", "numpy"))
     return res
